@@ -277,6 +277,9 @@ def gen_source(case, uid):
         body = [f"    {f['name']}: " + (f"Annotated[{render(f['ann'], names, sp)}, 'meta']" if f.get("wrap") == "annotated"
                                         else render(f['ann'], names, sp)) for f in c["fields"]]
         lines += body or ["    pass"]
+        if case.get("iter_dunder") and kind in ("dataclass", "attrs"):
+            # a model may be iterable: it is still a model (also with exactly one type argument)
+            lines += ["    def __iter__(self):", "        return iter(())"]
         lines.append("")
     return "\n".join(lines), names
 
@@ -1397,6 +1400,7 @@ def st_case(draw):  # noqa: C901, PLR0912, PLR0915
     else:
         qargs = draw(st_args_for(case_ctx, qi, [], True, allow_known)) if qparams else None
     return {
+        "iter_dunder": chance(draw, 1, 6),
         "kind": kind, "spelling": spelling, "bound": bound, "constr": constr,
         "classes": classes, "query": {"cls": qi, "args": qargs}, "debug": debug,
         "variants": variants, "slots": slots, "unpack_spelled": unpack_spelled, "steered": not allow_known,
